@@ -20,6 +20,9 @@ NP = {TP.FLOAT: np.float32, TP.DOUBLE: np.float64, TP.INT64: np.int64, TP.INT32:
 STEPS = [0]
 
 
+MAXMAG = [0.0]
+
+
 class RT:
     """Reference tensor."""
 
@@ -27,6 +30,14 @@ class RT:
 
     def __init__(self, a):
         self.a = np.asarray(a)
+        if self.a.dtype.kind == "f" and self.a.size:
+            # largest finite float magnitude seen during a run of the numpy reading (see c01: discontinuous ops on large values)
+            with np.errstate(all="ignore"):
+                m = np.abs(self.a[np.isfinite(self.a)])
+            if m.size:
+                v = float(m.max())
+                if v > MAXMAG[0]:
+                    MAXMAG[0] = v
 
     # ---- python protocol
     def __bool__(self):
